@@ -1,11 +1,132 @@
-/- Spec-driver operations of cluster F (see Driver/Main.lean). Imports Spec/* only — never Gen or Model. -/
+/- Spec-driver operations of cluster F (C16, C20). Imports Spec/* only — never Gen or Model. -/
 import PdbVerif.Driver.Json
+import PdbVerif.Spec.C16
+import PdbVerif.Spec.C20
 
 namespace Driver.SpecF
 open Lean Driver
 
+/-! ## C16: the property judges an observed effect trace -/
+
+/-- roles of the canonical path names the harness uses -/
+def roleOf (s : String) : Spec.C16.Role :=
+  if s == "decoy" || s == "ref" then .input
+  else if s == "zone" then .cache
+  else if s == "tmp" then .temp
+  else if s == "out1" || s == "out2" then .output
+  else .other
+
+def argS (a : Array Json) (i : Nat) : Except String String :=
+  match a[i]? with
+  | some (.str s) => .ok s
+  | _ => .error s!"trace event: missing argument {i}"
+
+def actOfJson (j : Json) : Except String (Spec.C16.Act String) := do
+  match j with
+  | .arr a =>
+    let k ← argS a 0
+    match k with
+    | "exists" => pure (.pathExists (← argS a 1))
+    | "isFile" => pure (.isFile (← argS a 1))
+    | "read" => pure (.readAll (← argS a 1))
+    | "mkstemp" => pure (.createTemp (← argS a 1))
+    | "append" => pure (.append (← argS a 1))
+    | "openw" => pure (.openTrunc (← argS a 1))
+    | "replace" => pure (.replace (← argS a 1) (← argS a 2))
+    | "remove" => pure (.remove (← argS a 1))
+    | "dbopen" => pure (.dbOpen (← argS a 1))
+    | "dbmem" => pure .dbMem
+    | "shell" => pure .shell
+    | _ => .error s!"trace event: unknown kind {k}"
+  | _ => .error "trace event: array expected"
+
+def actJ : Spec.C16.Act String → Json
+  | .pathExists p => .arr #[.str "exists", .str p]
+  | .isFile p => .arr #[.str "isFile", .str p]
+  | .readAll p => .arr #[.str "read", .str p]
+  | .createTemp p => .arr #[.str "mkstemp", .str p]
+  | .append p => .arr #[.str "append", .str p]
+  | .openTrunc p => .arr #[.str "openw", .str p]
+  | .replace s d => .arr #[.str "replace", .str s, .str d]
+  | .remove p => .arr #[.str "remove", .str p]
+  | .dbOpen p => .arr #[.str "dbopen", .str p]
+  | .dbMem => .arr #[.str "dbmem"]
+  | .shell => .arr #[.str "shell"]
+
+def judgeTrace (j : Json) : Except String Json := do
+  let tr ← jArr j "trace"
+  let acts ← tr.toList.mapM actOfJson
+  let bad := Spec.C16.traceBad roleOf acts
+  pure (Json.mkObj [("ok", .bool (Spec.C16.traceOk roleOf acts)), ("bad", .arr (bad.map actJ).toArray)])
+
+/-! ## C20: the abstract course of a scenario -/
+
+structure DRow where
+  id : Nat
+  tag : Int
+  cols : List String
+  deriving DecidableEq, Repr
+
+def readJ : Spec.C20.Read DRow → Json
+  | .noFile => .str "nofile"
+  | .noTable => .str "notable"
+  | .notADatabase => .str "notadb"
+  | .table rows =>
+    let ids := rows.map (·.id)
+    let tags := (rows.map (·.tag)).eraseDups
+    let colsets := (rows.map (·.cols)).eraseDups
+    Json.mkObj [("n", intJ rows.length), ("ids_contiguous", .bool (ids == List.range rows.length)),
+      ("tags", .arr (tags.map intJ).toArray),
+      ("cols", .arr (colsets.map (fun cs => Json.arr (cs.map Json.str).toArray)).toArray)]
+
+/-- statement-level JSON operations → model operations (`["insert", n]` = the n rows of one executemany) -/
+def opsOfJson (a : Array Json) : Except String (List (Spec.C20.Op DRow)) := do
+  let mut out : List (Spec.C20.Op DRow) := []
+  for j in a do
+    match j with
+    | .arr x =>
+      let k ← argS x 0
+      match k with
+      | "open" => out := out ++ [.openDb]
+      | "create" => out := out ++ [.createTable]
+      | "insert" =>
+        let n ← match x[1]? with | some v => asInt v | none => .error "insert: count"
+        out := out ++ (List.range n.toNat).map (fun i => Spec.C20.Op.insertRow ⟨i, 0, []⟩)
+      | "update" =>
+        let t ← match x[1]? with | some v => asInt v | none => .error "update: tag"
+        out := out ++ [.update (fun r => { r with tag := t })]
+      | "addcol" =>
+        let c ← argS x 1
+        out := out ++ [.addColumn (fun r => { r with cols := r.cols ++ [c] })]
+      | "commit" => out := out ++ [.commit]
+      | "close_keep" => out := out ++ [.closeKeep]
+      | "close_remove" => out := out ++ [.closeRemove]
+      | _ => throw s!"unknown store op {k}"
+    | _ => throw "store op: array expected"
+  pure out
+
+def r0OfJson (j : Json) : Except String (Spec.C20.Read DRow) := do
+  match (← jStr j "r0") with
+  | "nofile" => pure .noFile
+  | "olddb" => pure (.table [⟨999, 0, []⟩])
+  | "garbage" => pure .notADatabase
+  | s => .error s!"bad r0 {s}"
+
+def heldJ : Option (List DRow) → Json
+  | none => .str "notable"
+  | some rows => readJ (.table rows)
+
 def op (name : String) (j : Json) : Except String (Option Json) := do
+  if name.startsWith "effects_" then
+    return some (← judgeTrace j)
   match name with
+  | "store_scenario" =>
+    let a ← jArr j "ops"
+    let k ← jInt j "k"
+    let ops ← opsOfJson (if k < 0 then a else a.extract 0 k.toNat)
+    let r0 ← r0OfJson j
+    let sp := Spec.C20.spec r0 ops
+    pure (some (Json.mkObj [("seen", readJ sp.seen), ("held", heldJ sp.held), ("dirty", .bool sp.dirty)]))
   | _ => pure none
 
 end Driver.SpecF
